@@ -16,6 +16,7 @@ import SvgVerif.Model.PathParse
 import SvgVerif.Spec.PathSpec
 import SvgVerif.Model.PathPrint
 import SvgVerif.Model.Reverse
+import SvgVerif.Model.ArcBezier
 open Svg Svg.Wire
 
 def fmtMat (m : Mat Float) : String :=
@@ -244,6 +245,20 @@ def optB (s : String) : Option Bool := if s = "1" then some true else if s = "0"
 /-- `Point.__eq__` in floats: both coordinates within 1e-12 -/
 def eqvF (a b : Pt Float) : Bool := (a.x - b.x).abs <= 1e-12 && (a.y - b.y).abs <= 1e-12
 
+-- ---------------------------------------------------------------- C19
+instance : CeilNat Float where
+  ceilNat x := x.ceil.toUInt64.toNat
+
+def segsOfStr (sg : String) : Option (List (Seg Float)) :=
+  ((sg.splitOn "|").filter (fun t => t.trimAscii.toString ≠ "")).mapM segOfStr
+
+def fmtSegs (l : List (Seg Float)) : String := "OK\t" ++ " | ".intercalate (l.map fmtSeg)
+
+def optNat (s : String) : Option Nat := if s = "-" then none else s.toNat?
+
+def convOf (kind : String) (n : Option Nat) (a : ArcData Float) : List (Seg Float) :=
+  if kind = "c" then a.cubicCurves n else a.quadCurves n
+
 -- ---------------------------------------------------------------- C11
 def boxOf : List Float → Box Float
   | [x, y, w, h] => ⟨x, y, w, h⟩
@@ -278,6 +293,16 @@ def step (line : String) : String :=
   | ["path.run", c] =>
       (match cmdsOf c with
        | some cs => (match runCmds [] cs with | .ok l => "OK\t" ++ fmtPSegs l | .error e => fmtErr e ++ "\t")
+       | none => "bad-op")
+  | ["c19.arc", kind, n, sg] =>
+      (match segOfStr sg with
+       | some (.arc a) => fmtSegs (convOf kind (optNat n) a)
+       | _ => "bad-op")
+  | ["c19.path", kind, err, sg] =>
+      (match segsOfStr sg with
+       | some segs =>
+         let lim : Float := (Trig.tau : Float) * floatOfHex err
+         fmtSegs (approxPath (fun a => convOf kind (some (arcRequired a.sweep lim)) a) eqvF segs)
        | none => "bad-op")
   | ["seg.point", sg, t] =>
       (match segOfStr sg with | some s => "OK " ++ fmtPt (s.point (floatOfHex t)) | none => "bad-op")
